@@ -18,6 +18,7 @@ pub const BSDREV: Address = address!("b0000000000000000000000000000000000000ab")
 pub const BW1: Address = address!("b0000000000000000000000000000000000000ac"); // SSTORE(1, 7) (meant to be delegate-called)
 pub const BSDSELF: Address = address!("b0000000000000000000000000000000000000ad"); // SELFDESTRUCT(ADDRESS), holds 5 wei
 pub const BSDSELFREV: Address = address!("b0000000000000000000000000000000000000ae"); // calls BSDSELF, then reverts
+pub const BLOGREV: Address = address!("b0000000000000000000000000000000000000af"); // LOG1, then REVERT
 pub const ID: Address = address!("0000000000000000000000000000000000000004");
 pub const ECREC: Address = address!("0000000000000000000000000000000000000001");
 
@@ -71,6 +72,9 @@ pub fn code_bw1() -> Vec<u8> {
 pub fn code_bsdrev() -> Vec<u8> {
     Asm::new().call(op::CALL, U256::from(60000), BSD, Some(U256::ZERO), 0, 0, 0, 0).op(op::POP).push_u(0).push_u(0).op(op::REVERT).build()
 }
+pub fn code_blogrev() -> Vec<u8> {
+    Asm::new().push_u(7).push_u(0).push_u(0).op(0xa1).push_u(0).push_u(0).op(op::REVERT).build()
+}
 pub fn code_bsdself() -> Vec<u8> {
     Asm::new().op(op::ADDRESS).op(op::SELFDESTRUCT).build()
 }
@@ -114,6 +118,7 @@ pub fn std_world() -> Plain {
     w.insert(BNEST, PlainAcc::contract(&code_bnest()));
     w.insert(BSDREV, PlainAcc::contract(&code_bsdrev()));
     w.insert(BW1, PlainAcc::contract(&code_bw1()));
+    w.insert(BLOGREV, PlainAcc::contract(&code_blogrev()));
     w.insert(BSDSELF, PlainAcc::contract(&code_bsdself()).with_balance(U256::from(5)));
     w.insert(BSDSELFREV, PlainAcc::contract(&code_bsdselfrev()));
     w.insert(RICH, PlainAcc { balance: U256::MAX, ..Default::default() });
